@@ -16,7 +16,7 @@ COMP_OP_MAP subscripts and same-named parameters - never pruning code."""
 import ast
 
 from .. import AnalysisError
-from ..flow import view_of
+from ..flow import view_of, untag
 from ..guards import Conds, Universe, to_formula, f_and, outcomes, show
 from ..model import U
 from ..paths import enumerate_paths, symexec, loop_body_paths
@@ -615,6 +615,7 @@ def check_edit_window(ctx):
                       'the length filter `%s` rejects pairs inside |len(l)-len(r)| <= threshold (e.g. %s): qualifying '
                       'pairs are lost' % (U(e)[:100], w), sink, sample=U(e)[:100])
     ctx.floor('R-VERIFY/length-window', n, 1, 'length-window comparisons')
+    _check_length_cache(ctx, f, view)
     # threshold handed to the worker is int(floor(threshold))
     jpath, jqual, _, _ = JOINS['edit_distance']
     j = repo.fn(jpath, jqual)
@@ -627,6 +628,56 @@ def check_edit_window(ctx):
                           'int(threshold)')
             ctx.check('R-VERIFY/int-threshold', j, 'worker threshold%s' % ('/parallel' if isinstance(call.func, ast.Call) else ''),
                       ok, 'the worker receives threshold `%s`, not the integral floor of it' % U(e), call, sample=U(e))
+
+
+def _check_length_cache(ctx, f, view):
+    """the left lengths the window compares come from a list indexed by candidate id: it holds len(<left row>[<left join
+    attribute index>]) for every row of the LEFT table, in table order"""
+    lists = set()
+    # a local list (never a parameter) that is read as <list>[<candidate id>] inside the candidate loop
+    for lp_ in [n for n in walk_own(f.node) if isinstance(n, ast.For) and isinstance(n.target, ast.Name)]:
+        for x in ast.walk(lp_):
+            if isinstance(x, ast.Subscript) and isinstance(x.value, ast.Name) and isinstance(x.slice, ast.Name) \
+                    and x.slice.id == lp_.target.id and x.value.id not in f.params and isinstance(x.ctx, ast.Load):
+                ds = [d for d in view.defs if d.name == x.value.id and d.value is not None]
+                if ds and all(isinstance(d.value, (ast.List, ast.ListComp)) for d in ds):
+                    lists.add(x.value.id)
+    for lst in sorted(lists):
+        defs = [d for d in view.defs if d.name == lst and d.value is not None]
+        ok = False
+        why = 'the length list `%s` is not built from the left table' % lst
+        comp = [d.value for d in defs if isinstance(d.value, ast.ListComp)]
+        if comp:
+            c = comp[0]
+            g = c.generators[0]
+            row = g.target.id if isinstance(g.target, ast.Name) else None
+            it, elt = g.iter, c.elt
+            flt = bool(g.ifs)
+        else:
+            loops = [n for n in walk_own(f.node) if isinstance(n, ast.For) and any(
+                isinstance(x, ast.Call) and isinstance(x.func, ast.Attribute) and x.func.attr == 'append' and U(x.func.value) == lst
+                for x in ast.walk(n))]
+            if len(loops) != 1:
+                ctx.check('R-VERIFY/length-cache', f, lst, False, why, f.node)
+                continue
+            lp = loops[0]
+            row = lp.target.id if isinstance(lp.target, ast.Name) else None
+            it = lp.iter
+            apps = [x for x in ast.walk(lp) if isinstance(x, ast.Call) and isinstance(x.func, ast.Attribute) and x.func.attr == 'append'
+                    and U(x.func.value) == lst]
+            elt = apps[0].args[0] if apps and apps[0].args else None
+            from ..guards import Conds, TRUE as _T
+            flt = len(apps) != 1 or view.stmt_of(apps[0]) not in lp.body
+        if row and elt is not None:
+            ex = untag(view.expand(elt, view.stmt_of(elt) if not comp else defs[0].node))
+            ok = expr_side(it) == 'L' and not flt and isinstance(ex, ast.Call) and call_name(ex) == 'len' and len(ex.args) == 1 \
+                and isinstance(ex.args[0], ast.Subscript) and U(ex.args[0].value) == row and expr_side(ex.args[0].slice) == 'L' \
+                and 'join_attr' in U(ex.args[0].slice)
+            why = 'the length list `%s` holds `%s` for `%s` in `%s`; it must hold len(row[<left join attribute index>]) for every ' \
+                  'row of the left table: the window is otherwise compared with the wrong length' % (lst, U(ex)[:60], row, U(it)[:40])
+        ctx.check('R-VERIFY/length-cache', f, lst, ok, why, defs[0].node if defs else f.node,
+                  sample='%s[i] = len(left row i [left join attribute])' % lst)
+    ctx.floor('R-VERIFY/length-cache', len(lists), 1, 'length lists')
 
 
 def check_ni(ctx):
